@@ -24,6 +24,27 @@ CHECKS = {
    note="reals for floats; part kernels and make_details replaced by their contracts; combined-table layout is a precondition "
         "(ParameterTable); part count enumerated 1..4; one recorded known finding (mixture-wide magnetic flag)",
    technique=TECH + "Python AST -> VCs -> z3, counter-models replayed on the real MixtureKernel", design="DESIGN.md 6 C08"),
+ "C10": dict(engine="pyvc",
+   text="_pop_par_weights (all flag combinations), get_mesh (the parameter tables of all 78 builtin models x 1d/2d, key universe "
+        "of every legal key plus unknown names / dispersity suffixes on non-dispersible parameters, symbolic presence bits), "
+        "call_kernel, DataMixin._calc_theory (background added after smearing, 0 for sesans) and bumps create_parameters are "
+        "executed symbolically; 'unknown name => TypeError, nothing else raises', 'exactly the parameter's own keys are consumed', "
+        "'orientation inactive in 1-D', 'theory = apply(kernel at background 0) + background' and the frames are discharged by z3.",
+   note="weights.get_weights, make_kernel_args, the kernel and resolution.apply replaced by their contracts; bumps Parameter is a "
+        "stub contract (bumps is not installed); SasviewModel object plumbing and numerical equality of the interfaces end to end "
+        "are not under contract (only the shared mesh/theory functions are)",
+   technique=TECH + "Python AST -> VCs -> z3 with finite-map inputs; witnesses replayed on get_mesh/_pop_par_weights",
+   design="DESIGN.md 6 C10"),
+ "C11": dict(engine="pyvc",
+   text="History independence is reduced to contracts: (a) frame conditions - caller dicts/arrays unchanged - for call_kernel, "
+        "call_Fq, _calc_theory, Kernel.Iq/Fq, DllKernel._call_kernel (plus get_mesh, ProductKernel.Iq, MixtureKernel.Iq under "
+        "C10/C07/C08); (b) functional post-state - after DllKernel._call_kernel every slot of the reused result buffer equals the "
+        "full-mesh sum whatever its previous contents (loop invariant over the 100-step chunks, symbolic num_eval), including "
+        "the empty mesh, and the arrays Kernel.Fq returns do not alias that buffer.",
+   note="compiled kernel replaced by its contract (C01); 'bit-identical to a fresh process' (floating point, OS) is not claimed; "
+        "SasviewModel class-level caches are not under contract yet",
+   technique=TECH + "Python AST -> VCs with loop invariants -> z3; frame and stale-buffer witnesses replayed on real kernels",
+   design="DESIGN.md 6 C11"),
  "C20": dict(engine="pyvc",
    text="convert_model and its 12 helpers are executed symbolically once per table entry and naming scheme with a finite-map "
         "input whose keys carry symbolic presence bits and symbolic values (state merging), so one run covers every subset "
